@@ -9,7 +9,8 @@ import sys
 
 MUTATING = ("create_file", "create_folder", "move", "remove", "write")
 
-ERRNOS = {"EIO": errno.EIO, "ENOSPC": errno.ENOSPC, "EACCES": errno.EACCES}
+ERRNOS = {"EIO": errno.EIO, "ENOSPC": errno.ENOSPC, "EACCES": errno.EACCES, "ENOENT": errno.ENOENT,
+          "EEXIST": errno.EEXIST, "EPERM": errno.EPERM, "ESTALE": errno.ESTALE}
 
 
 class InjectedFault(OSError):
@@ -84,7 +85,9 @@ class SimFS:
     def _raise(self, f, op, rec):
         self.fired = {"kind": f["kind"], "k": f["k"], "op": op}
         self.fault = None
-        raise InjectedFault(ERRNOS.get(f.get("errno", "EIO"), errno.EIO), "injected fault (%s %s)" % (f["kind"], op))
+        # OSError(code, ...) yields the subclass the real call would raise (FileNotFoundError for
+        # ENOENT - e.g. a stale handle or a racing deletion -, PermissionError, FileExistsError, ...)
+        raise OSError(ERRNOS.get(f.get("errno", "EIO"), errno.EIO), "injected fault (%s %s)" % (f["kind"], op))
 
     def _stamp(self, *paths):
         if self.stamp and self.clock is not None:
